@@ -1498,3 +1498,50 @@ def make_node_table(repo, run, rule):
         run.violation(rule, fi, 'yaml._make_node', '; '.join(bad[:3]))
     else:
         run.ok(rule, fi, '_make_node evaluated on %d rows (node kind x dict_is_data x data_arg_name x parse_scalars)' % rows, 'deep containers; scalar parsed / verbatim; mapping as kwargs only when asked; value positional or named; file and stage index supplied')
+
+
+def metadata_syntax_table(repo, run, rule):
+    """yaml._encode_all_metadata evaluated on concrete texts (the stdlib tokenizer and regex engine run on the text; the pickling of the
+    metadata is a recording stand-in): every `!tag{{ <python mapping> }}` becomes `!tag:<encoded mapping>`, the rest of the text is
+    untouched - also with several occurrences, nested braces and text after them; an unterminated `{{` is an error"""
+    import ast as _ast
+    import re as _re
+    import token as _token
+    import tokenize as _tokenize
+    fi = repo.func('yaml._encode_all_metadata')
+    cases = [
+        ('a: 1\nb: [1, 2]\n', 'a: 1\nb: [1, 2]\n'),
+        ("a: !metadata{{'k': 1}} 5\n", "a: !metadata:<{'k': 1}> 5\n"),
+        ("a: !force{{'k': {'n': [1, 2]} }} 5\nb: 2\n", "a: !force:<{'k': {'n': [1, 2]}}> 5\nb: 2\n"),
+        ("a: !del{{'x': 1}} {p: 1}\nb: !weak{{'y': 'z'}} 7\nc: 3\n", "a: !del:<{'x': 1}> {p: 1}\nb: !weak:<{'y': 'z'}> 7\nc: 3\n"),
+        ("x: !call:f{{'delete': False}} {a: 1}\n", "x: !call:f:<{'delete': False}> {a: 1}\n"),
+        ("a: !metadata{{'k': 1 5\n", 'ValueError'),
+    ]
+    bad = []
+    for text, want in cases:
+        ev = _fde(repo, stubs={'_encode_metadata'}, stub=lambda name, recv, a, k: '<%r>' % ((([recv] if recv is not None else []) + list(a))[0],))
+        ev.generators = False
+
+        def tok(readline):
+            return _tokenize.tokenize(ev.as_callable(readline))
+        tok._fde_ok = True
+        rc = lambda *a: _re.compile(*a)      # noqa: E731
+        rc._fde_ok = True
+        le = lambda s_: _ast.literal_eval(s_.strip())      # noqa: E731
+        le._fde_ok = True
+        ev.extcalls.update({'tokenize.tokenize': tok, 're.compile': rc})
+        ev.values.update({'token.OP': _token.OP})
+        ev.free['eval'] = le
+        try:
+            r = ev.call(fi, text)
+        except Unsupported as e:
+            raise AnalysisError('_encode_all_metadata: finite-domain evaluator refused: %s' % e)
+        if want == 'ValueError':
+            if r.raised not in ('ValueError', 'TokenError', 'SyntaxError'):
+                bad.append('unterminated metadata in %r: %s (expected an error)' % (text[:30], r.raised or 'accepted as %r' % (r.ret,)))
+        elif r.raised or r.ret != want:
+            bad.append('%r becomes %s, expected %r' % (text, r.raised or repr(r.ret), want))
+    if bad:
+        run.violation(rule, fi, '{{...}} metadata syntax', '; '.join(bad[:2]))
+    else:
+        run.ok(rule, fi, '_encode_all_metadata evaluated on %d texts' % len(cases), 'each !tag{{mapping}} rewritten to !tag:<encoded>; everything else untouched; unterminated block rejected')
